@@ -42,6 +42,47 @@ def _classify_emission(I, st, pcs):
     return "other:" + emit.render(flat)
 
 
+def _slice_start(t):
+    """absolute start offset of a data slice term built from `input`: input[a..][..n] -> a ; input[..n] -> 0"""
+    INP = ("term", ("in", "input"))
+
+    def field(agg, name):
+        if agg and agg[0] == "agg":
+            for k, v in agg[1]:
+                if k == (("f", name),):
+                    return v
+        return None
+
+    def go(x):
+        if x == INP:
+            return ("int", 0)
+        if x[0] == "term" and x[1][0] == "app" and x[1][1] == "slice":
+            base = go(x[1][2])
+            if base == "?":
+                return "?"
+            st_ = field(x[1][3], "start")
+            if st_ is None:
+                return base
+            if base == ("int", 0):
+                return st_
+            if st_ == ("int", 0):
+                return base
+            return ("term", ("arith", "Add", base, st_))
+        return "?"
+    return go(t)
+
+
+def _is_sum(start, parts):
+    """start == sum(parts) up to the order of the additions (0 for no parts)"""
+    def flat(x):
+        if x[0] == "term" and x[1][0] == "arith" and x[1][1] == "Add":
+            return flat(x[1][2]) + flat(x[1][3])
+        if x == ("int", 0):
+            return []
+        return [x]
+    return sorted(map(repr, flat(start))) == sorted(map(repr, [p for p in parts if p != ("int", 0)]))
+
+
 def rule_tables(ctx):
     prog = ctx.prog
     wr = prog.find("Call::<WithBody, B>::write")
@@ -94,6 +135,7 @@ def rule_tables(ctx):
                 # incomplete group is a block that failed and was rolled back (R02.1)
                 pat = [("arg",), ("lit", b"\r\n"), ("raw",), ("lit", b"\r\n")]
                 i = 0
+                running = getattr(st, "_c03_running", [])
                 while i < len(pcs):
                     grp = pcs[i:i + 4]
                     got = [(p[0], p[1]) if p[0] == "lit" else (p[0],) for p in grp]
@@ -105,8 +147,23 @@ def rule_tables(ctx):
                             bad4.append("chunk size placeholder %r differs from the length of the data slice %r" % (size_arg, raw[2]))
                         if not ("'slice'" in repr(raw[1]) and "('in', 'input')" in repr(raw[1])):
                             bad4.append("chunk data is not a slice of the input")
-                        if grp[0][1] not in ("debug", "lower_hex", "upper_hex") or (grp[0][1] == "debug" and not grp[0][3]):
-                            bad4.append("chunk size is not rendered in hexadecimal (%s)" % grp[0][1])
+                        else:
+                            # contiguity: the data of chunk k starts where chunk k-1 ended (sum of the earlier chunk lengths)
+                            start = _slice_start(raw[1])
+                            if start == "?":
+                                bad4.append("cannot see where the chunk data starts in the input: %s" % repr(raw[1])[:120])
+                            elif start[0] == "term" and start[1][0] == "widen" and len(running) >= 2:
+                                pass    # beyond the unrolling bound the consumed counter is one widened atom: the slice starts at it
+                            elif not _is_sum(start, running):
+                                bad4.append("chunk %d does not start where the previous one ended: data starts at %s, %d chunk(s) of this write "
+                                            "came before it" % (len(running) + 1, "0" if start == ("int", 0) else repr(start)[:80], len(running)))
+                        running = running + [size_arg]
+                        fl = (grp[0][3] or {}).get("flags", set())
+                        if grp[0][1] not in ("debug", "lower_hex", "upper_hex") or (
+                                grp[0][1] == "debug" and not (fl & {"debug_lower_hex", "debug_upper_hex"})):
+                            bad4.append("chunk size is not rendered in hexadecimal (%s, flags %s)" % (grp[0][1], sorted(fl)))
+                        elif fl & {"alternate", "sign_plus"}:
+                            bad4.append("chunk size is rendered with a prefix (flags %s): `0x..` / `+..` is not a chunk size" % sorted(fl))
                         kinds.append(("chunk" if I.decide_le(st, ("int", 1), size_arg) else "chunk-maybe-empty", grp))
                         i += 4
                     elif got == pat[:len(got)] and i + len(got) == len(pcs):
